@@ -72,7 +72,7 @@ func cmdManifest() {
 			Technique:  tech,
 		})
 	}
-	var nas []na
+	nas := []na{} // never null in the JSON: the schema wants an array
 	var naIDs []string
 	for id := range notApplicable {
 		naIDs = append(naIDs, id)
